@@ -354,6 +354,23 @@ func execC13(b []byte) vx.Verdict {
 	c.Close()
 	var listed map[string]interface{}
 	_ = json.Unmarshal([]byte(listLine), &listed)
+	// the release of a started remote unit is answered once the executing node has released its unit; the local entry goes
+	// when the submitter's status monitor has seen that (its next one-second look). The statement sets no time, so a released
+	// unit that is still listed gets 15 s to disappear before it counts.
+	vx.WaitFor(15*time.Second, 200*time.Millisecond, func() string {
+		for _, u := range units {
+			if _, ok := listed[u.id]; ok && u.released {
+				if c2, err := ctl(); err == nil {
+					l2, _ := c2.Command("work list", 20*time.Second)
+					c2.Close()
+					listed = map[string]interface{}{}
+					_ = json.Unmarshal([]byte(l2), &listed)
+				}
+				return "still listed"
+			}
+		}
+		return ""
+	})
 	for _, u := range units {
 		if u.released {
 			if _, ok := listed[u.id]; ok {
@@ -420,12 +437,10 @@ func stageOf(state int) int {
 // checkStatusLog verifies the monotonicity rules over every rewrite of every status record under dirPrefix.
 var knownHits = map[string]int{}
 
-// releaseAsked: units for which a release was requested. A record that a writer made after finding NO stored record (old
-// state -2: the status file had just been removed by the release) is then not part of the unit's reported history: it can
-// only come from an object of an earlier in-process incarnation of the node (the harness restarts workceptor inside one
-// process, so such objects and their goroutines stay alive; after a real restart they do not exist) racing with the removal
-// of the directory. What a release must leave behind is checked on disk and through the API, not here.
+// (Objects of an earlier in-process incarnation of the node are kept from writing by the VerifMarkDead hook; before that hook
+// existed their late writes into a directory that was being released had to be filtered out here.)
 func checkStatusLog(logFile, dirPrefix string, releaseAsked map[string]bool) *vx.Verdict {
+	_ = releaseAsked
 	f, err := os.Open(logFile)
 	if err != nil {
 		return nil
@@ -446,9 +461,6 @@ func checkStatusLog(logFile, dirPrefix string, releaseAsked map[string]bool) *vx
 			continue
 		}
 		pid, _ := strconv.Atoi(p[0])
-		if p[2] == "-2" && releaseAsked[filepath.Base(filepath.Dir(p[1]))] {
-			continue
-		}
 		ns, _ := strconv.Atoi(p[4])
 		nz, _ := strconv.ParseInt(p[5], 10, 64)
 		hist[p[1]] = append(hist[p[1]], rec{pid, ns, nz, sc.Text()})
